@@ -35,6 +35,10 @@ pub struct Transaction<SP: StorageProvider, PS> {
     phead: Option<CmdId>,
     /// Written but not committed heads
     heads: BTreeMap<CmdId, Location>,
+    /// Tips the in-flight perspective builds on. They stay in `heads`, so
+    /// `locate` still reaches them and their ancestors, until the perspective
+    /// is written and its own head replaces them.
+    superseded: Prior<CmdId>,
     /// Tag for associated policy store
     policy_store: PhantomData<PS>,
 }
@@ -47,6 +51,7 @@ impl<SP: StorageProvider, PS> Transaction<SP, PS> {
             perspective: None,
             phead: None,
             heads: BTreeMap::new(),
+            superseded: Prior::None,
             policy_store: PhantomData,
         }
     }
@@ -89,7 +94,11 @@ impl<SP: StorageProvider, PS: PolicyStore> Transaction<SP, PS> {
     pub fn flush(&mut self, storage: &mut SP::Storage) -> Result<(), ClientError> {
         if let Some(p) = Option::take(&mut self.perspective) {
             self.phead = None;
+            let superseded = mem::replace(&mut self.superseded, Prior::None);
             let segment = storage.write(p)?;
+            for id in superseded {
+                self.heads.remove(&id);
+            }
             self.heads
                 .insert(segment.head_id(), segment.head_location()?);
         }
@@ -318,10 +327,7 @@ impl<SP: StorageProvider, PS: PolicyStore> Transaction<SP, PS> {
         MS: Fn() -> Result<F, StorageError>,
     {
         // Must always start a new perspective for merges.
-        if let Some(p) = Option::take(&mut self.perspective) {
-            let seg = storage.write(p)?;
-            self.heads.insert(seg.head_id(), seg.head_location()?);
-        }
+        self.flush(storage)?;
 
         let left_loc = self
             .locate(storage, left, &mut buffers.traversal.primary)?
@@ -352,9 +358,9 @@ impl<SP: StorageProvider, PS: PolicyStore> Transaction<SP, PS> {
         )?;
         perspective.add_command(command)?;
 
-        // These are no longer heads of the transaction, since they are both covered by the merge
-        self.heads.remove(&left.id);
-        self.heads.remove(&right.id);
+        // These are no longer heads of the transaction once the merge is written,
+        // since they are both covered by it.
+        self.superseded = Prior::Merge(left.id, right.id);
 
         self.perspective = Some(perspective);
         self.phead = Some(command.id());
@@ -381,11 +387,7 @@ impl<SP: StorageProvider, PS: PolicyStore> Transaction<SP, PS> {
         }
 
         // Write out the current perspective.
-        if let Some(p) = Option::take(&mut self.perspective) {
-            self.phead = None;
-            let seg = storage.write(p)?;
-            self.heads.insert(seg.head_id(), seg.head_location()?);
-        }
+        self.flush(storage)?;
 
         let loc = self
             .locate(storage, parent, buffer)?
@@ -397,7 +399,7 @@ impl<SP: StorageProvider, PS: PolicyStore> Transaction<SP, PS> {
             .insert(storage.get_linear_perspective(loc)?);
 
         self.phead = Some(parent.id);
-        self.heads.remove(&parent.id);
+        self.superseded = Prior::Single(parent.id);
 
         Ok(p)
     }
